@@ -354,7 +354,7 @@ Definition mk_opts (method lvlflag lvlabs date time permflag perm large pwflag :
      o_encrypt := if pwflag =? 0 then None else Some pw |}.
 
 (* flat argument list -> (sink plan, append base, oracle table, program) *)
-Record wprog := { wp_plan : list wev; wp_base : option bytes; wp_enc : list (N * bytes * bytes); wp_ops : list wop }.
+Record wprog := { wp_plan : list wev; wp_base : option bytes; wp_enc : list (N * Z * bytes * bytes); wp_ops : list wop }.
 
 Fixpoint parse_wprog (fuel : nat) (args : list arg) (acc : wprog) : option wprog :=
   match fuel with O => None | Datatypes.S f =>
@@ -389,8 +389,9 @@ Fixpoint parse_wprog (fuel : nat) (args : list arg) (acc : wprog) : option wprog
       else if code =? 11 then push OFinish r
       else if code =? 13 then
         match r with
-        | AN m :: AB content :: AB payload :: rest =>
-            parse_wprog f rest {| wp_plan := wp_plan acc; wp_base := wp_base acc; wp_enc := (m, content, payload) :: wp_enc acc; wp_ops := wp_ops acc |}
+        | AN m :: AN lf :: AN la :: AB content :: AB payload :: rest =>
+            let l := if lf =? 1 then Z.of_N la else (- Z.of_N la)%Z in
+            parse_wprog f rest {| wp_plan := wp_plan acc; wp_base := wp_base acc; wp_enc := (m, l, content, payload) :: wp_enc acc; wp_ops := wp_ops acc |}
         | _ => None end
       else if code =? 14 then
         match r with
@@ -407,18 +408,18 @@ Fixpoint parse_wprog (fuel : nat) (args : list arg) (acc : wprog) : option wprog
   end end.
 
 (* the compressor oracle: payloads observed from the implementation, keyed by (method, content) *)
-Fixpoint enc_lookup (tbl : list (N * bytes * bytes)) (m : N) (content : bytes) : bytes :=
+Fixpoint enc_lookup (tbl : list (N * Z * bytes * bytes)) (m : N) (l : Z) (content : bytes) : bytes :=
   match tbl with
   | [] => []
-  | (m', c, p) :: r => if (m' =? m) && bytes_eqb c content then p else enc_lookup r m content
+  | (m', l', c, p) :: r => if (m' =? m) && Z.eqb l' l && bytes_eqb c content then p else enc_lookup r m l content
   end.
-Definition enc_of (tbl : list (N * bytes * bytes)) (m : CompressionMethod) (lvl : Z) (content : bytes) : bytes :=
-  enc_lookup tbl (CompressionMethod_to_u16 m) content.
+Definition enc_of (tbl : list (N * Z * bytes * bytes)) (m : CompressionMethod) (lvl : Z) (content : bytes) : bytes :=
+  enc_lookup tbl (CompressionMethod_to_u16 m) lvl content.
 
 Definition unit_res_obs (r : res unit) : obs := res_obs (fun _ => T "unit") r.
 Definition n_res_obs (r : res N) : obs := res_obs ON r.
 
-Definition run_wop (tbl : list (N * bytes * bytes)) (s : wstate) (op : wop) : wstate * obs :=
+Definition run_wop (tbl : list (N * Z * bytes * bytes)) (s : wstate) (op : wop) : wstate * obs :=
   let enc := enc_of tbl in
   match op with
   | OStartFile n o => let '(s', r) := start_file enc crc32 s n o in (s', unit_res_obs r)
@@ -450,7 +451,7 @@ Definition run_wop (tbl : list (N * bytes * bytes)) (s : wstate) (op : wop) : ws
   | OFinish => let '(s', r) := finish enc crc32 s in (s', res_obs OB r)
   end.
 
-Fixpoint run_wops (tbl : list (N * bytes * bytes)) (s : wstate) (ops : list wop) (acc : list obs) : wstate * list obs :=
+Fixpoint run_wops (tbl : list (N * Z * bytes * bytes)) (s : wstate) (ops : list wop) (acc : list obs) : wstate * list obs :=
   match ops with
   | [] => (s, rev_append acc [])
   | op :: r => let '(s', o) := run_wop tbl s op in
@@ -474,14 +475,9 @@ Definition wprog_obs (args : list arg) : obs :=
       | Ok s0 =>
           let '(s1, outs) := run_wops (wp_enc p) s0 (wp_ops p) [] in
           (* the writer is dropped at the end: finalises unless closed *)
-          let before := sink_bytes s1 in
+          let finished := existsb (fun o => match o with OFinish => true | _ => false end) (wp_ops p) in
           let '(s2, dr) := drop_writer (enc_of (wp_enc p)) crc32 s1 in
-          let final := match sink_bytes s2, before with
-                       | Some b, _ => Some b
-                       | None, Some b => Some b
-                       | None, None => None
-                       end in
-          OL [OL outs; unit_res_obs dr; match final with Some b => OB b | None => T "SKIP" end]
+          OL [OL outs; unit_res_obs dr; match sink_bytes s2 with Some b => OB b | None => T "SKIP" end]
       end
   end.
 
